@@ -25,4 +25,5 @@ Proof.
   - intros z Hz H0. apply f_to_uint64_of_Z. unfold small in Hz. lia.
   - intros z Hz. exact (f_fits_f32_of_Z z Hz).
   - intros z g f Hz Hf Hv. exact (f_mult_of_div z g f Hz Hf Hv).
+  - intros a f _ H. unfold f_mult_of. change (f_le f c_zero = true) in H. rewrite H. reflexivity.
 Qed.
